@@ -855,7 +855,7 @@ class Interp:
             cd = self.consts.get(self.stack[-1], {})
             if e.id in cd:
                 v = cd[e.id]
-                return AScal() if isinstance(v, float) else v
+                return self._const_scal() if isinstance(v, float) else v
             raise Unsupported(f"name {e.id}")
         if isinstance(e, ast.Tuple):
             return tuple(self.expr(x, env) for x in e.elts)
